@@ -39,13 +39,81 @@ def build_cfg(cfg):
     return vf.cargo_build(["h_dd"], features=[cfg], no_default=True, target_sub=cfg)["h_dd"]
 
 
+MODEL_VOS = ["Base/Conv.vo", "DD/Table.vo", "DD/TableExtra.vo", "DD/Sem.vo", "DD/Build.vo", "DD/Apply.vo",
+             "DD/Cache.vo", "DD/ConfigApply.vo", "DD/Rename.vo", "Num/I64.vo"]
+
+
+def build_model_driver(ctx):
+    """driver of the configuration-generic apply model (coq/DD/ConfigApply.v, coq/DD/Rename.v)"""
+    return vf.ocaml_build(ctx, "ExC20.v", "c20_main.ml", extra_ml=["dd_types.ml"], model_vos=MODEL_VOS)
+
+
 def build(ctx):
     """setup.sh calls this with the quick tier: all quick configurations are pre-built"""
     _, drv = ddcommon.build_dd(ctx)
+    drv20 = build_model_driver(ctx)
     bins = {}
     for cfg in configs(ctx):
         bins[cfg] = build_cfg(cfg)
-    return bins, drv
+    return bins, drv, drv20
+
+
+def model_history(cid, rng, nv, length, threads, slots=14):
+    """history over the API calls the model's run_ops has (var, not_var, constants, not, the 8 binary
+    operators, ite, clone, drop) + node_count; snapshot after every call"""
+    ops = [f"VARS {nv}"]
+    live = set()
+
+    def pick():
+        return rng.choice(sorted(live))
+
+    for _ in range(length):
+        r = rng.random()
+        d = rng.randrange(slots)
+        if len(live) < 3 or r < 0.14:
+            ops.append(f"{rng.choice(['VAR', 'NVAR'])} h{d} {rng.randrange(nv)}")
+            live.add(d)
+        elif r < 0.17:
+            ops.append(f"CONST h{d} {rng.randrange(2)}")
+            live.add(d)
+        elif r < 0.62:
+            ops.append(f"{rng.choice(ddgen.BIN_OPS)} h{d} h{pick()} h{pick()}")
+            live.add(d)
+        elif r < 0.74:
+            ops.append(f"ITE h{d} h{pick()} h{pick()} h{pick()}")
+            live.add(d)
+        elif r < 0.80:
+            ops.append(f"NOT h{d} h{pick()}")
+            live.add(d)
+        elif r < 0.84:
+            ops.append(f"CLONE h{d} h{pick()}")
+            live.add(d)
+        elif r < 0.90:
+            a = pick()
+            ops.append(f"DROP h{a}")
+            live.discard(a)
+        else:
+            ops.append(f"NC h{pick()}")
+    ops.append("SNAP")
+    return (ddgen.header(cid, "bdd", cap=1 << 14, cache=rng.choice([1, 2, 16, 1 << 10]), threads=threads,
+                         snap_each=True), ops)
+
+
+def gen_model_cases(ctx):
+    rng = random.Random(ctx.seed * 7919 + 2020)
+    thorough = ctx.tier == "thorough"
+    cases = []
+    for i in range(400 if thorough else 60):
+        nv = rng.choice([2, 3, 3, 4, 5, 6])
+        h, ops = model_history(f"m{i}", rng, nv, rng.randrange(20, 60), 1)
+        for t in (1, 2, 8):
+            cases.append(with_threads((h, ops), t))
+    for i in range(12 if thorough else 3):
+        # wider functions: the parallel recursor really splits
+        h, ops = model_history(f"w{i}", rng, 8, 45, 1, slots=10)
+        for t in (1, 8):
+            cases.append(with_threads((h, ops), t))
+    return cases
 
 
 def with_threads(case, threads, suffix=True):
@@ -104,11 +172,48 @@ def cases_for(cfg, groups):
     return res
 
 
+def run_model_tie(ctx, bins, drv20, cfgs):
+    """every build configuration x worker count against the extracted run_ops under three model
+    configurations (c20_main.ml)"""
+    cases = gen_model_cases(ctx)
+    by_id = {h.split()[0]: (h, ops) for h, ops in cases}
+    seen = set()
+    tot_ok = 0
+    for cfg in cfgs:
+        ok, bad, _ = vf.lockstep_sharded(ctx, bins[cfg], drv20, cases, tag="-m-" + cfg)
+        tot_ok += ok
+        vf.log(f"C20: model tie: {cfg}: {ok} cases ok, {len(bad)} bad")
+        for cid, msg in bad:
+            cls = ddcommon.msg_class(msg)
+            if cls in seen or len(seen) >= 2:
+                continue
+            seen.add(cls)
+            header, ops = by_id[cid]
+            knd = "prop" if "kind=prop" in msg else "corr"
+            small, smsg = vf.shrink_case(ctx, bins[cfg], drv20, header, ops, knd, budget=120,
+                                         protect=lambda o: o.startswith("VARS"),
+                                         accept=lambda m2, c=cls: ddcommon.msg_class(m2) == c)
+            hk = " ".join(t for t in header.split()[1:] if t.split("=")[0] in ("kind", "threads"))
+            body = ";".join(small) if len(small) <= 30 else f"case-{cid}"
+            vf.report_violation(
+                ctx, f"model:{knd}:{cfg}:{cls[1]}:{hk}:{body}",
+                {"stage": "correspondence", "kind": knd, "config": cfg, "driver": "c20", "case_header": header,
+                 "ops": small, "verdict": smsg or msg, "drv_args": [],
+                 "what": "the run of this build configuration is not observationally equal to the extracted "
+                         "configuration-generic model (three model configurations)",
+                 "theorem_or_relation": "C20_run_ops_observe (coq/Props/C20.v); driver ocaml/c20_main.ml"},
+                nfif=(knd != "prop"))
+    ctx.stats["model_tie_cases"] = len(cases)
+    ctx.stats["model_tie_runs_ok"] = tot_ok
+    ctx.model_cases = cases
+
+
 def run(ctx):
     vf.proof_gate(ctx, ALLOWED_AXIOMS)
-    bins, drv = build(ctx)
+    bins, drv, drv20 = build(ctx)
     groups = gen_groups(ctx)
     cfgs = configs(ctx)
+    run_model_tie(ctx, bins, drv20, cfgs)
     dig = {}      # (cfg, case id) -> digest
     badmap = {}   # (cfg, case id) -> verdict text
     ok_total = 0
@@ -170,7 +275,7 @@ def run(ctx):
                          "depending on the build configuration or the worker count",
                  "theorem_or_relation": "C20: configurations are observationally equivalent (coq/Props/C20.v)"},
                 nfif=True)
-    allcases = [c for _, _, cases in groups for c in cases]
+    allcases = [c for _, _, cases in groups for c in cases] + list(ctx.model_cases)
     ctx.stats["groups"] = len(groups)
     ctx.stats["runs"] = len(dig)
     ctx.stats["distinct_nontrivial"] = len({tuple(ops) for _, ops in allcases if len(ops) >= 3})
@@ -198,7 +303,10 @@ def run(ctx):
 
 def replay(ctx, path):
     r = json.load(open(path))
-    _, drv = ddcommon.build_dd(ctx)
+    if r.get("driver") == "c20":
+        drv = build_model_driver(ctx)
+    else:
+        _, drv = ddcommon.build_dd(ctx)
     cfgs = r.get("configs") or [r.get("config", "cfg-default")]
     threads = r.get("threads") or [None]
     seen = {}
